@@ -16,7 +16,8 @@ def main():
         s = specs[i]
         rng = random.Random(s['seed']) if s.get('seed') is not None else None
         res = fl.post(s['buf'], bytes.fromhex(s['body']), s['ctype'], what=s['what'], chunked=s['chunked'], rng=rng,
-                      max_body=s.get('max_body'), time_limit=s.get('time_limit', 5.0), cut_wire=s.get('cut_wire'), in_thread=s.get('in_thread', False))
+                      max_body=s.get('max_body'), time_limit=s.get('time_limit', 5.0), cut_wire=s.get('cut_wire'), in_thread=s.get('in_thread', False),
+                      raw_wire=bytes.fromhex(s['raw_wire']) if s.get('raw_wire') else None)
         out.write(json.dumps({'i': i, 'res': res}) + '\n')
         out.flush()
 
